@@ -219,6 +219,56 @@ func runC17(w *W) {
 	}
 	w.eachValidDoc(scale, func(g string, doc []byte) { w.c17Judge(st, g, doc, false) })
 	w.eachNDInput(scale, func(g string, in []byte) { w.c17Judge(st, g, in, true) })
+	// "After a successful parse the tape is well-formed" also binds when the
+	// parser accepts something it should not: feed hostile inputs and check the
+	// tape of whatever is accepted (acceptance itself is C01's business).
+	any := func(g string, in []byte) {
+		w.c17Judge(st, g, in, false)
+		w.c17Judge(st, g, in, true)
+	}
+	w.genTokens(4, any)
+	w.genBoundaryPairs(any)
+	docs := w.seedDocs(300<<10, 60, 20)
+	per := 40
+	if w.thorough() {
+		per = 300
+	}
+	w.genMutants(docs, func(size int) int {
+		if size > 64<<10 {
+			return per / 8
+		}
+		return per
+	}, any)
+	// truncations of valid documents that still end in a closer
+	r := w.rng("c17trunc")
+	nt := 3000
+	if w.thorough() {
+		nt = 40000
+	}
+	for k := 0; k < nt; k++ {
+		rr := r.Split()
+		if !w.mine(k) {
+			continue
+		}
+		size := []int{60, 300, 2000, 9000, 12000}[k%5]
+		doc := gen.Doc(rr, gen.DocCfg{Size: size, MaxDepth: 5, MaxFan: 5, WS: k % 2, Esc: 10, NoLF: k%3 == 0})
+		// cut after a random closing bracket
+		var cuts []int
+		for i, c := range doc {
+			if c == '}' || c == ']' {
+				cuts = append(cuts, i+1)
+			}
+		}
+		if len(cuts) < 2 {
+			continue
+		}
+		cut := cuts[rr.Intn(len(cuts)-1)]
+		any("truncated-after-closer", doc[:cut])
+		if k%4 == 0 {
+			lines := append(append([]byte(`{"ok":1}`+"\n"), doc[:cut]...), []byte("\n")...)
+			w.c17Judge(st, "nd-truncated-last-line", lines, true)
+		}
+	}
 }
 
 func replayC17(w *W, cs *ev.Case) {
